@@ -152,6 +152,7 @@ def run(ctx):
     texts = [t + '::' + q(i) for t in TYPES for i in IDS]
     texts += ['', '::', '::"', '::""', 'A::"', 'A::""', 'A::"a', 'A::a"', 'A::"a"b"', 'A::"a""', 'A::"\\"', 'A::"\\\\"', 'A::"\\u{41}"', 'A::"\\u{110000}"', 'A::"\\x41"', 'A::"\\q"',
               'A::"a"::"b"', 'A::B"c"', 'A"::"b"', ' A::"a"', 'A::"a" ', 'A ::"a"', 'A:: "a"', 'A::"\\*"', 'A::"*"', 'A::"\xff"', 'A:::"a"', 'A::::"a"', '"::"a"', 'A::"a\\"']
+    texts += [ws * n_ + 'A::"a"' + ws * m_ for ws in (' ', '\t', '\n') for n_ in (0, 1, 4, 8) for m_ in (0, 1, 4) if n_ + m_]
     ucases = []
     for t in texts:
         tb = t.encode('utf-8', 'surrogateescape') if isinstance(t, str) else t
